@@ -52,23 +52,23 @@ theorem page_zero (rows : List (List Cell)) (hu : analyzeFontUsage rows.flatten 
 
 /-- the conditions of `attrCell` spelled out -/
 theorem attrCell_ice (c : Cell) (h : attrCell true c = true) :
-    c.ch ≤ 255 ∧ isVisible c = true ∧ c.attr.fg < 16 ∧ c.attr.bg < 16 ∧ isBlink c.attr = false := by
+    c.ch ≤ 255 ∧ c.attr.fg < 16 ∧ c.attr.bg < 16 ∧ isBlink c.attr = false := by
   unfold attrCell at h
   simp only [if_true, Bool.and_eq_true, decide_eq_true_eq, Bool.not_eq_true'] at h
-  obtain ⟨⟨⟨h1, h2⟩, h3⟩, h4, h5⟩ := h
-  exact ⟨h1, h2, h3, h4, h5⟩
+  obtain ⟨⟨h1, h3⟩, h4, h5⟩ := h
+  exact ⟨h1, h3, h4, h5⟩
 
 theorem attrCell_blink (c : Cell) (h : attrCell false c = true) :
-    c.ch ≤ 255 ∧ isVisible c = true ∧ c.attr.fg < 16 ∧ c.attr.bg < 8 := by
+    c.ch ≤ 255 ∧ c.attr.fg < 16 ∧ c.attr.bg < 8 := by
   unfold attrCell at h
   simp only [Bool.false_eq_true, if_false, Bool.and_eq_true, decide_eq_true_eq] at h
-  obtain ⟨⟨⟨h1, h2⟩, h3⟩, h4⟩ := h
-  exact ⟨h1, h2, h3, h4⟩
+  obtain ⟨⟨h1, h3⟩, h4⟩ := h
+  exact ⟨h1, h3, h4⟩
 
 /-- ice colours: attribute written with `as_u8(Ice)`, read with `from_u8(.., Ice)` -/
 theorem dec_ice (c : Cell) (h : attrCell true c = true) (hp : c.attr.page = 0) :
     (⟨c.ch, fromU8 true (asU8 .ice c.attr)⟩ : Cell) = shownCell c := by
-  obtain ⟨_, _, hfg, hbg, hbl⟩ := attrCell_ice c h
+  obtain ⟨_, hfg, hbg, hbl⟩ := attrCell_ice c h
   obtain ⟨_, t2, t3⟩ := tab_ice c.attr.fg hfg c.attr.bg hbg (isBold c.attr) (isBlink c.attr)
   rw [asU8_ice]
   unfold fromU8 shownCell
@@ -79,7 +79,7 @@ theorem dec_ice (c : Cell) (h : attrCell true c = true) (hp : c.attr.page = 0) :
 /-- blink mode: attribute written with `as_u8(Blink)`, read with `from_u8(.., Blink)` (or `Unlimited`, which reads alike) -/
 theorem dec_blink (c : Cell) (h : attrCell false c = true) (hp : c.attr.page = 0) :
     (⟨c.ch, fromU8 false (asU8 .blink c.attr)⟩ : Cell) = shownCell c := by
-  obtain ⟨_, _, hfg, hbg⟩ := attrCell_blink c h
+  obtain ⟨_, hfg, hbg⟩ := attrCell_blink c h
   obtain ⟨_, t2, t3, t4⟩ := tab_blink c.attr.fg hfg c.attr.bg hbg (isBold c.attr) (isBlink c.attr)
   rw [asU8_blink]
   unfold fromU8 shownCell
@@ -101,7 +101,7 @@ theorem asU8'_unl (a : Attr) : asU8' .unlimited a = unlByte a.fg a.bg (isBold a)
 /-- `Unlimited` buffers whose cells fit the blink layout are written like `Blink` ones -/
 theorem dec_unl (c : Cell) (h : attrCell false c = true) (hp : c.attr.page = 0) :
     (⟨c.ch, fromU8 false (asU8' .unlimited c.attr)⟩ : Cell) = shownCell c := by
-  obtain ⟨_, _, hfg, hbg⟩ := attrCell_blink c h
+  obtain ⟨_, hfg, hbg⟩ := attrCell_blink c h
   rw [asU8'_unl, tab_unl _ hfg _ hbg, ← asU8_blink]
   exact dec_blink c h hp
 
